@@ -332,3 +332,61 @@ def decisions(t, limit=12):
         a = dict(zip(atoms, bits))
         out.append((a, resolve_conds(t, a)))
     return out
+
+
+
+def value_segs(I: Interp, t, tree):
+    """Segments of a list-valued term: a list object, or a decision (cond) between list values."""
+    t = strip_dropnone(t)
+    if isinstance(t, tuple) and t and t[0] == "cond":
+        return [("if", t[1], value_segs(I, t[2], tree), value_segs(I, t[3], tree))]
+    if isinstance(t, tuple) and t and t[0] == "ref" and isinstance(I.obj(t), HList):
+        return list_content(I, t, tree)
+    return [("s", t)]
+
+
+def map_seg_tests(segs, f):
+    """Apply f to every test of the if-segments outside loops."""
+    out = []
+    for s in segs:
+        if s[0] == "if":
+            out.append(("if", f(s[1]), map_seg_tests(s[2], f), map_seg_tests(s[3], f)))
+        else:
+            out.append(s)
+    return out
+
+
+def seg_test_atoms(segs, acc=None):
+    if acc is None:
+        acc = []
+    for s in segs:
+        if s[0] == "if":
+            _test_atoms(s[1], acc)
+            seg_test_atoms(s[2], acc)
+            seg_test_atoms(s[3], acc)
+    return acc
+
+
+def resolve_segs(segs, assign):
+    """Segments with the if-segments outside loops decided by a truth assignment of their atomic tests."""
+    out = []
+    for s in segs:
+        if s[0] == "if":
+            try:
+                v = eval_test(s[1], assign)
+            except KeyError:
+                out.append(("if", s[1], resolve_segs(s[2], assign), resolve_segs(s[3], assign)))
+                continue
+            out.extend(resolve_segs(s[2] if v else s[3], assign))
+        else:
+            out.append(s)
+    return out
+
+
+def seg_cases(segs, limit=8):
+    """[(assignment, decided segments)] over all truth assignments of the top-level if tests; None beyond ``limit`` atoms."""
+    import itertools
+    atoms = seg_test_atoms(segs)
+    if len(atoms) > limit:
+        return None
+    return [(dict(zip(atoms, bits)), resolve_segs(segs, dict(zip(atoms, bits)))) for bits in itertools.product((False, True), repeat=len(atoms))]
